@@ -78,6 +78,9 @@ def fixed_cases():
 
 
 def replay_case(case):
+    if case.get("inproc"):
+        from props import _inproc
+        return _inproc.replay(case)
     return make_eval(core.build("rel"))(case, core.Stats())
 
 
@@ -99,15 +102,10 @@ def run(tier, seed):
     stats, fails = core.hyp_search(lambda: _enc.case_strategy(mt, boundary_weight=3), ev, n, seed)
     stats.merge(st0)
     extra = {}
-    try:
-        from props import _inproc
-        ip = _inproc.run_target("pbt_collect", tier, seed)
-        extra["inproc"] = ip["summary"]
-        stats.evaluations += ip["evaluations"]
-        stats.nontrivial |= ip["nontrivial"]
-        fails = fails + ip["fails"]
-    except ImportError:
-        pass
+    # in-process: collect() itself on alphabets of 1-3 letters, capacities 1-3000 and generated splits of the input
+    # into successive buffers, against an independent greedy model (consumed count, block bytes, CRC per block)
+    from props import _inproc
+    _inproc.add(stats, fails, "collect", seed, 400000 if tier == "quick" else 20000000)
     oc = core.conclude(PID, f0 + fails, replay_case)
     core.write_evidence(PID, tier, seed, "exploration", stats, RULE, time.time() - t0,
                         violations=len(oc.violations), extra=extra,
